@@ -61,7 +61,7 @@ type Ctx struct {
 	samples  []interface{}
 }
 
-func (c *Ctx) Count(k string) { c.Counters[k]++ }
+func (c *Ctx) Count(k string)         { c.Counters[k]++ }
 func (c *Ctx) CountN(k string, n int) { c.Counters[k] += n }
 
 // Add records one correspondence case. nontrivial: by the property's own rule.
@@ -101,6 +101,10 @@ func main() {
 		os.Exit(2)
 	}
 	cmd := os.Args[1]
+	if cmd == "worker17" {
+		worker17()
+		return
+	}
 	fs := flag.NewFlagSet(cmd, flag.ExitOnError)
 	propID := fs.String("prop", "", "property id")
 	seed := fs.Uint64("seed", 1, "seed")
